@@ -233,18 +233,18 @@ Definition P_hstep (p : params) (e : henv) (rs : list rate_entry) (cast : list a
    then ho_votes cur = [] /\ ho_prevotes cur = filter (keep_prevote p (hp_h x)) pv
    else ho_votes cur = vs /\ ho_prevotes cur = pv).
 
-Fixpoint P_hist (p : params) (e : henv) (rs : list rate_entry) (cast : list avote) (pvs : list (nat * Z))
-         (l : list (hstep * hobs)) : Prop :=
+Fixpoint P_hist (p : params) (rs : list rate_entry) (cast : list avote) (pvs : list (nat * Z))
+         (l : list (henv * hstep * hobs)) : Prop :=
   match l with
   | [] => True
-  | (x, cur) :: r =>
+  | (e, x, cur) :: r =>
       P_hstep p e rs cast pvs x cur /\
       (ho_panic cur = false ->
        let vs := put_votes cast (hp_votes x) in
        let pv := put_prevotes pvs (hp_prevotes x) in
        if is_period_last (hp_h x) (p_vote_period p)
-       then P_hist p e (ho_rates cur) [] (filter (keep_prevote p (hp_h x)) pv) r
-       else P_hist p e (ho_rates cur) vs pv r)
+       then P_hist p (ho_rates cur) [] (filter (keep_prevote p (hp_h x)) pv) r
+       else P_hist p (ho_rates cur) vs pv r)
   end.
 
 Fixpoint leqb {A} (eqb : A -> A -> bool) (a b : list A) : bool :=
@@ -276,18 +276,18 @@ Definition Pb_hstep (p : params) (e : henv) (rs : list rate_entry) (cast : list 
    then leqb avote_eqb (ho_votes cur) [] && leqb ev_eqb (ho_prevotes cur) (filter (keep_prevote p (hp_h x)) pv)
    else leqb avote_eqb (ho_votes cur) vs && leqb ev_eqb (ho_prevotes cur) pv).
 
-Fixpoint Pb_hist (p : params) (e : henv) (rs : list rate_entry) (cast : list avote) (pvs : list (nat * Z))
-         (l : list (hstep * hobs)) : bool :=
+Fixpoint Pb_hist (p : params) (rs : list rate_entry) (cast : list avote) (pvs : list (nat * Z))
+         (l : list (henv * hstep * hobs)) : bool :=
   match l with
   | [] => true
-  | (x, cur) :: r =>
+  | (e, x, cur) :: r =>
       Pb_hstep p e rs cast pvs x cur &&
       (ho_panic cur ||
        let vs := put_votes cast (hp_votes x) in
        let pv := put_prevotes pvs (hp_prevotes x) in
        if is_period_last (hp_h x) (p_vote_period p)
-       then Pb_hist p e (ho_rates cur) [] (filter (keep_prevote p (hp_h x)) pv) r
-       else Pb_hist p e (ho_rates cur) vs pv r)
+       then Pb_hist p (ho_rates cur) [] (filter (keep_prevote p (hp_h x)) pv) r
+       else Pb_hist p (ho_rates cur) vs pv r)
   end.
 
 Lemma Pb_hstep_sound p e rs cast pvs x cur : Pb_hstep p e rs cast pvs x cur = true -> P_hstep p e rs cast pvs x cur.
@@ -298,9 +298,9 @@ Proof.
     (split; [apply (leqb_eq avote_eqb avote_eqb_eq); exact A | apply (leqb_eq ev_eqb ev_eqb_eq); exact B]).
 Qed.
 
-Lemma Pb_hist_sound p e : forall l rs cast pvs, Pb_hist p e rs cast pvs l = true -> P_hist p e rs cast pvs l.
+Lemma Pb_hist_sound p : forall l rs cast pvs, Pb_hist p rs cast pvs l = true -> P_hist p rs cast pvs l.
 Proof.
-  induction l as [|[x cur] l IH]; intros rs cast pvs H; [exact I|].
+  induction l as [|[[e x] cur] l IH]; intros rs cast pvs H; [exact I|].
   cbn [Pb_hist P_hist] in *. apply andb_true_iff in H as [H1 H2].
   split; [apply Pb_hstep_sound; exact H1|]. intro Hp. rewrite Hp in H2. simpl in H2. cbv zeta in *.
   destruct (is_period_last (hp_h x) (p_vote_period p)); apply IH; exact H2.
